@@ -291,7 +291,9 @@ class Check:
                 rp = sb.run([qp], plan=case["plan"], tz=case["tz"])
                 rs = sb.run(["-i"], plan=case["plan"], tz=case["tz"], stdin_text=qp + "\n" + q1 + "\nexit\n")
                 if not (rp.sim or rp.status != 0 or r1.sim or r1.status != 0):
-                    if rs.sim or rs.signal is not None or rs.stdout != rp.stdout + r1.stdout:
+                    # (the two outputs must appear in this order; what an interactive session prints around them is its own business)
+                    i_ = rs.stdout.find(rp.stdout)
+                    if rs.sim or rs.signal is not None or i_ < 0 or rs.stdout.find(r1.stdout, i_ + len(rp.stdout)) < 0:
                         viols.append(Violation(PROP, "C05.session", ["C05.session", "second_query_of_a_session_differs", ksig],
                                                {"first": qp, "second": q1, "outcome": rs.summary(), "one_shot_bytes": len(rp.stdout) + len(r1.stdout), "session_bytes": len(rs.stdout)}))
                         return viols
